@@ -165,14 +165,20 @@ def rule_lookup_shape(ctx):
                'lookup shape changed: typeMap=%s tagMap=%s baseTagSet=%s' % (has_type, has_tag, base_ok))
     f = ctx.func('codec.ber.decoder.SingleItemDecoder.__call__')
     subs = []
+    # the two tables, however they are reached: `self._typeMap[...]` or a local bound to it
+    tables = {'self._typeMap': 'typeMap', 'self._tagMap': 'tagMap'}
+    for a_ in walk_own(f.node):
+        if isinstance(a_, ast.Assign) and len(a_.targets) == 1 and isinstance(a_.targets[0], ast.Name) and norm(a_.value) in ('self._typeMap', 'self._tagMap'):
+            tables[a_.targets[0].id] = tables[norm(a_.value)]
     for n in walk_own(f.node):
         if isinstance(n, ast.Subscript) and isinstance(n.ctx, ast.Load):
+            base = tables.get(norm(n.value), norm(n.value))
             # a key chosen by a conditional expression stands for both keys
             if isinstance(n.slice, ast.IfExp):
-                subs.append('%s[%s]' % (norm(n.value), norm(n.slice.body)))
-                subs.append('%s[%s]' % (norm(n.value), norm(n.slice.orelse)))
+                subs.append('%s[%s]' % (base, norm(n.slice.body)))
+                subs.append('%s[%s]' % (base, norm(n.slice.orelse)))
             else:
-                subs.append(norm(n))
+                subs.append('%s[%s]' % (base, norm(n.slice)))
     ok = ('typeMap[chosenSpec.typeId]' in subs and 'tagMap[baseTagSet]' in subs and
           'tagMap[tagSet]' in subs and 'tagMap[tagSet[:1]]' in subs)
     ctx.ob('A1.lookup', f, 'typeMap[chosenSpec.typeId] / tagMap[baseTagSet] / tagMap[tagSet] / tagMap[tagSet[:1]]', ok,
